@@ -108,6 +108,12 @@ def init (A : Arith K) : State K := { w := #[A.one, A.one], rev := #[0], buf := 
 /-- `FFT::new`. -/
 def new (A : Arith K) : State K := updateNCore A (init A) 4
 
+/-- `impl Default for FFT`: `Self::new()`. -/
+def default (A : Arith K) : State K := new A
+
+/-- `#[derive(Clone)]`: a field-by-field copy. -/
+def clone (s : State K) : State K := { w := s.w, rev := s.rev, buf := s.buf }
+
 /-! ### `fft_internal` -/
 
 /-- `for j in 0..ln { y = v[i+j+ln] * w[ind]; ind += step; v[i+j+ln] = v[i+j] - y; v[i+j] += y }`
@@ -352,6 +358,21 @@ def step (A : Arith K) (s : State K) (op : Op K) : State K :=
 
 /-- The object after a whole call history, starting from `FFT::new()`. -/
 def after (A : Arith K) (h : List (Op K)) : State K := h.foldl (step A) (new A)
+
+/-- Every way to obtain an object: `FFT::new()`, `FFT::default()`, `.clone()` of an object, and an object after one
+    more call — arbitrarily nested (clone of a used object, calls on a clone, …). -/
+inductive Build (K : Type) where
+  | new
+  | default
+  | clone (b : Build K)
+  | call (b : Build K) (op : Op K)
+
+/-- The object a construction yields. -/
+def Build.state (A : Arith K) : Build K → State K
+  | .new => Fft.new A
+  | .default => Fft.default A
+  | .clone b => Fft.clone (b.state A)
+  | .call b op => step A (b.state A) op
 
 /-- Result of a call (the part the caller sees). -/
 def result (A : Arith K) (s : State K) (op : Op K) : Except Panic (Out K) := (call A s op).map (·.2)
